@@ -182,10 +182,7 @@ func checkMain(repo, verifRoot, prop, tier, replayFile string, verbose bool) int
 				missingUnits = append(missingUnits, t.Pkg+" (package)")
 				continue
 			}
-			names := t.Units
-			if len(names) == 1 && names[0] == "all" {
-				names = e.allFunctionNames(pkgPath)
-			}
+			names := e.expandUnitNames(pkgPath, t.Units)
 			us, missing := e.unitsFor(pkgPath, names)
 			for _, m := range missing {
 				missingUnits = append(missingUnits, e.shortPkg(pkgPath)+"."+m)
